@@ -142,6 +142,7 @@ def consumes_nothing(g):
 
 def const_text(g):
     """consumes only fixed characters, no trivia: char / tag / sequences, options and alternatives of those"""
+    g = grammar.unlook(g)
     if not isinstance(g, tuple):
         return False
     if g[0] in CONST_TEXT:
